@@ -23,6 +23,7 @@ def summaries(events, vm_prefix="vm"):
         k = ctx.choose(2)
         if k == 0:
             return ok(ty, Lazy("RuntimeBoxedVal", "popped%d" % n))
+        ctx.events.append(("pop-failed", n))
         return err(ty, Agg("Located", {0: Lazy("u32", "pop_err_loc%d" % n), 1: Lazy("error::execution::Error", "pop_err%d" % n)}))
 
     def record(ctx, a, ty, c):
